@@ -851,7 +851,13 @@ def compare(op, x):
         if op == "==":
             x = Sym(x.n)
         else:
-            x = Sym(_pmul(x.n, x.d))
+            sgn = cur.sign_of(Sym(x.d)) if cur is not None else 0
+            if sgn > 0:
+                x = Sym(x.n)                       # denominator provably positive on this path
+            elif sgn < 0:
+                x = Sym(_pneg(x.n))
+            else:
+                x = Sym(_pmul(x.n, x.d))
     if x.is_const_field():
         if op == "==":
             return not x.n
